@@ -450,6 +450,10 @@ def solve_pareto_front(
         results.append(solution)
         if max_solutions is not None and len(results) >= max_solutions:
             break
+        # Exclude everything this optimum dominates (including itself). z3's Pareto
+        # iteration does not advance on its own when there is a single objective and
+        # would return the same optimum forever.
+        opt.add(z3.Or([z3.Int(v) < solution.get(v, 0) for v in minimize_vars]))
 
     return results
 
